@@ -120,7 +120,17 @@ class ByteArray(SimpleModel):
     def from_base64(cls, value):
         joiner = type(value)()
         try:
-            return (b64decode(joiner.join(value)),)
+            data = joiner.join(value)
+            if isinstance(data, six.text_type):
+                data = data.encode('ascii')
+
+            # white space is allowed between the characters of a base64
+            # literal, anything else outside the alphabet is an error (which
+            # b64decode silently skips unless told to validate)
+            data = b''.join(data.split())
+
+            return (b64decode(data, validate=True),)
+
         except (TypeError, ValueError):
             # binascii.Error is a ValueError
             raise ValidationError(value)
